@@ -432,6 +432,38 @@ open Nx.L1 Nx.Prudp in
 theorem other_substreams_do_not_disturb (env : Env) (now : Time) (c : Conn) (data : Bytes) (s sub : Nat) (hne : s ≠ sub) :
     SendFr c (c.send env now data s).c sub := send_other_sendFr env now c data s sub hne
 
+open Nx.L1 Nx.Prudp in
+/-- **a retransmission is a copy.** What a fired retransmission timer hands to the transport is the stored packet itself
+    — never a re-encoding (no second pass through compression, cipher or signature) — or nothing; what it stores is that packet
+    again; and it leaves every substream's sender role untouched -/
+theorem retransmission_is_the_stored_packet (env : Env) (now : Time) (c : Conn) (p : Packet) (k : Nat) :
+    (∀ q ∈ emitted (c.fireOne env now (.resend p k)), q = p) ∧ ResFr c (c.fireOne env now (.resend p k)).c [p] ∧
+    (∀ sub, SendFr c (c.fireOne env now (.resend p k)).c sub) := fire_resend env now c p k
+
+open Nx.L1 Nx.Prudp in
+/-- **the sender's retransmissions are re-deliveries.** In every reachable state of the system (`Good` carries the invariant
+    `TimersOk`: the retransmission timers of the sender hold, of the channel's packets, nothing but elements of `net` — the send
+    path stores exactly what it emits, the receive path and acknowledgements store nothing), a fired retransmission timer emits
+    an element of `net`: a copy of something handed to the transport before, which the network of the system (and the L2
+    adversary) may deliver any number of times anyway. `SysOp.fireResend` is a step of the system. -/
+theorem C01_retransmission_is_redelivery (env : Env) (hcomp : ∀ b, env.compress b = b) (hdec : ∀ b, env.decompress b = .ok b)
+    (sub : Nat) (ci : Cipher) (size : Nat) (hsz : 1 ≤ size) (start : Nat) (ops : List SysOp) (s : Sys) (ch : Chan)
+    (h0 : Good sub ci size start s ch) (hok : Sys.runOk env sub s ops = true) (now : Time) (p : Packet) (k : Nat)
+    (hp : p ∈ resendsOf (Sys.run env sub s ops).a) (hr : relevant sub p = true) :
+    ∀ q ∈ emitted ((Sys.run env sub s ops).a.fireOne env now (.resend p k)), q = p ∧ q ∈ (Sys.run env sub s ops).net :=
+  resend_is_redelivery env sub _ now p k (sys_refines env hcomp hdec sub ci size hsz start ops s ch h0 hok).1.tim hp hr
+
+/-! non-vacuity of the retransmission theorems: with a scheduler (as after `handshake`), a `send` arms one timer per fragment,
+    the timers hold exactly what was handed to the transport, and a fired one hands the same packet over again -/
+open Nx.L1 Nx.Prudp in
+example :
+    let env : Env := { C04.toyEnv with s := { fragmentSize := 2, transport := TRANSPORT_TCP } }
+    let a := { Conn.new env (some 1) 1 2 3 ("10.0.0.2", 1) 15 10 ("10.0.0.1", 2) 1 10 with state := STATE_CONNECTED, sched := some {} }
+    let b := Conn.new env (some 1) 4 5 6 ("10.0.0.1", 2) 1 10 ("10.0.0.2", 1) 15 10
+    let s := Sys.run env 0 (Sys.fresh a b) [SysOp.send 0 [1, 2, 3]]
+    resendsOf s.a = s.net ∧ s.net.length = 2 ∧ (∀ q ∈ s.net, relevant 0 q = true) ∧
+    (s.net.map fun q => emitted (s.a.fireOne env 7 (.resend q 0))) = s.net.map (fun q => [q]) := by decide +kernel
+
 /-! non-vacuity of the system theorems: a run with a two-fragment message, reordering, duplication (one copy through the whole
     receive path), a forged DISCONNECT, data of the other direction sent by the receiver endpoint and received by the sender endpoint, acknowledgements and an
     aggregate acknowledgement arriving at either end, a keep-alive of the receiver endpoint, a refused `send`, then a
